@@ -1,15 +1,104 @@
 """Per-property claim texts for MANIFEST.json (consumed by tools/mkmanifest.py)."""
-_NOTE = ("trusted base: the reference model in vp/oracle.py (self-tested on every run: dense vs table vs GF(2) layers), "
-         "numpy, the interpreter; only executions produced by the workload are judged")
+_NOTE = ("trusted base: the reference model in vp/oracle.py (dense Kronecker matrices / one-qubit table / own GF(2) algebra, "
+         "cross-checked against each other in every worker before the workload starts), numpy, CPython; only executions produced "
+         "by the workload are judged; verdict 'held on what was observed', never 'verified'")
+_T = "runtime monitoring: "
+
+
+def _c(text, technique, note=_NOTE):
+    return {"text": text, "technique": _T + technique, "note": note}
+
+
 CLAIMS = {
- "C01": {
-  "text": "Every ordered pair of operators (all strings x all four phases) for N<=3 is multiplied by the real code "
-          "(numba JIT with bounds checking, interpreted kernels, and torch) and compared with two independent oracles "
-          "(dense Kronecker matrices, one-qubit multiplication table); hostile random pairs up to 64 qubits, chains "
-          "checked at every step for phase drift, associativity triples, squares, pauli_combine/batch_dot/polynomial "
-          "products. Exhaustive below N=4, sampled above: 'held on what was observed'.",
-  "note": _NOTE,
-  "technique": "runtime monitoring: differential oracle over exhaustive small-N + hostile random executions",
- },
+ "C01": _c("Every ordered pair of operators (all strings x all four phases) for N<=3 is multiplied by the real code (numba JIT with bounds "
+           "checking, interpreted kernels, torch) and compared with two independent oracles (dense matrices, one-qubit table); hostile "
+           "random pairs up to 64 qubits, chains checked at every step for phase drift, associativity triples, squares, pauli_combine / "
+           "batch_dot / polynomial products. Exhaustive below N=4, sampled above.",
+           "oracle comparison of every product over exhaustive small-N and hostile random executions; stepwise trace check of chains"),
+ "C02": _c("All signed generators x all operands x all receiver kinds (Pauli, list, polynomial, map, state) for N<=2, all masks x all "
+           "generators of matching size for N=3, random cases to 40 qubits; result compared with the table rule and with dense U^dag P U; "
+           "untouched columns compared bitwise; undo and order-four histories.",
+           "postcondition oracle (dense conjugation + table rule) on rotate_by of every receiver kind; bitwise locality monitor"),
+ "C03": _c("All 24 one-qubit and all 11520 two-qubit maps (oracle-enumerated) applied by the real transform_by to generators and operators; "
+           "identity, generator images, multiplicativity (library product vs library transform), commutation / Hermiticity / squares, "
+           "coefficients, masked application vs embed, rotation map vs rotation; an explicit unitary is constructed for N<=3 and must "
+           "conjugate every operator to the library's image.",
+           "oracle comparison over the exhaustively enumerated small Clifford groups + constructive unitary witness"),
+ "C04": _c("All 576 pairs and 13824 triples of one-qubit maps; every two-qubit map for the inverse laws on both sides and composed with a "
+           "generating set and random partners; random maps to 8 qubits; results compared with the oracle's own composition/inverse, "
+           "operand snapshots before/after, result/operand memory overlap.",
+           "group-law monitors over exhaustive N=1 / N=2 map spaces with differential oracle, snapshot and aliasing monitors"),
+ "C05": _c("Invariant-at-a-hook on the real StabilizerState class (every public method) plus explicit checks: from every valid tableau "
+           "for N=1 (48) and N=2 (quick: every second of the 34560, offset by the seed; thorough: all) every operation of the public alphabet is "
+           "applied once and the successor's tableau checked - with the constructor checks this is the inductive step of the invariant over all "
+           "histories for N<=2; BFS reachability from the constructors (thorough: closes at 34560 tableaux / 91 density matrices); random walks "
+           "of 200/2000 operations for N=3..8; both coin values scripted in interpreted mode; all arms of the rank-reduction swap logic "
+           "must be observed.",
+           "invariant hooks on hooked state after every call; one-step closure over the enumerated tableau space; random-walk histories"),
+ "C06": _c("Every call of the real measure() is replayed on a stabilizer-group oracle with the observed outcomes: determined outcomes, "
+           "log2prob, post-state (dense and canonical signed group), rank, repetition; all coin schedules of k-observable lists are "
+           "enumerated in interpreted mode by scripting numpy.random.randint; both arms and fairness (exact binomial, alpha 1e-9) "
+           "in JIT mode; all structural classes (determined / anti / logical / standby-row-first) must be populated.",
+           "trace replay of recorded outcomes against a projection oracle; schedule enumeration by scripting the kernel's coin"),
+ "C07": _c("expect() on lists, Paulis of all four phases, monomials, polynomials (incl. unreduced products), other states, and get_prob() "
+           "on every bit string, for every valid N=1 tableau, a stride over all N=2 tableaux, random signed states of every rank to N=6, "
+           "both packages; compared with dense traces; receiver/argument snapshots.",
+           "oracle comparison (dense traces) + side-effect snapshots on every query"),
+ "C08": _c("entropy() in index and mask form for all subsystems of every N<=2 tableau stride and random signed states of every rank "
+           "(dense eigenvalue oracle N<=6, own GF(2) formula to N=20, the two cross-checked), regauged generator sets, local Cliffords "
+           "inside/outside, complement, empty/full, GHZ family; both packages.",
+           "two independent oracles (partial-trace eigenvalues, GF(2) rank) over exhaustive subsystems; metamorphic regauging monitors"),
+ "C09": _c("Random gate programs (<=40 gates, N<=6, every gate specification kind, adversarial layering shapes) executed in all 18 "
+           "configurations {uncompiled, layers compiled, circuit compiled} x {CliffordCircuit, Circuit} x {built, copy, composed} on "
+           "inputs of every kind and compared with fresh gates applied one at a time and with the oracle's composite map; take() "
+           "structure checked against the layer-order trace specification; per-gate locality.",
+           "differential execution across configurations + offline trace-specification check of the layer structure"),
+ "C10": _c("backward(forward(x)) and forward(backward(x)) compared bitwise with x for every named/indexed gate at every placement "
+           "(N<=2, all operators, tableau stride), single gates of every kind, directly built layers, and random programs in all 18 "
+           "configurations, inputs of every kind; both packages.",
+           "round-trip monitors over exhaustive gate tables and random programs in all configurations"),
+ "C11": _c("Finite tables checked exhaustively: H,S,X,Y,Z,CNOT (both orientations) against textbook conjugation tables and literal "
+           "dense unitaries at every placement N<=4 (thorough N<=8); the 24 indexed gates pairwise distinct, valid, covering the group, "
+           "closed under compose and inverse; bad indices / qubit counts must raise ValueError.",
+           "exhaustive table oracle + dense unitary oracle; refusal monitors"),
+ "C12": _c("to_state/to_map round trip and dense value for all N=1 and a stride of N=2 maps x ranks and random maps to N=6; every "
+           "named constructor N<=6 against its documented density matrix; to_qutip; stabilizer_state for every length, all sign "
+           "patterns (N<=3), six input formats; anticommuting input must raise; both packages.",
+           "oracle comparison (constructive unitary, dense projectors) over enumerated maps and sign patterns"),
+ "C13": _c("Differential monitoring: identical well-formed inputs are fed to the same-named kernel / method of pyclifford and "
+           "torchclifford (28 kernels, ~70 class-level operations, all 9 circuit configurations forward and backward, diagonalize) and "
+           "normalised outputs compared; a one-sided exception is a disagreement.",
+           "differential execution of the two implementations with normalising comparator"),
+ "C14": _c("MeasureLayer on every ordered Z-subset of an N<=2 tableau stride (both coins scripted in interpreted mode), random circuits "
+           "interleaving gates and measurement layers replayed on the group oracle with the recorded outcomes (record growth, log2prob, "
+           "state, rank), take() traces with measurement layers, post-selection of every signed Pauli x both results, backward with "
+           "recorded / possible / impossible records (ValueError expected).",
+           "trajectory replay of recorded outcomes; trace-specification check of take(); refusal monitors"),
+ "C15": _c("Every operator on every ordered type pair: all single-term operands for N=1, then generated expression trees (depth<=4, "
+           "complex coefficients, all phases, cancelling terms); each node's object is read out as a dense matrix and compared with the "
+           "matrix expression of its operands' own matrices; reduce (merge / phases / tolerance), trace, to_qutip, linearity; both packages. "
+           "Known finding K1 (Pauli/Monomial.trace ignores the phase; pinned by a baseline test) is reported, not suppressed for other mechanisms.",
+           "node-local oracle comparison over generated expression trees"),
+ "C16": _c("Every sample of every sampler and of states pushed through the random-circuit constructors is validity-checked (hard "
+           "verdict); uniformity by exact chi-square / binomial tests at alpha=1e-9: 24 one-qubit elements, 720 two-qubit classes (all "
+           "must be seen) x 16 sign patterns, 576 Pauli-map elements, N=3 entangling fraction 2/3, sign bits, resampling of map-less "
+           "gates; both packages.",
+           "validity invariant on every sample + exact statistical monitors over the enumerated finite groups"),
+ "C17": _c("For every object kind: copy() deep-snapshot equality, no shared memory, and mutate-one/observe-other histories; every query "
+           "of the property's list and every in-place operation with bitwise snapshots of receiver and arguments before/after.",
+           "bitwise snapshot and memory-aliasing monitors around every public method"),
+ "C18": _c("diagonalize for every non-identity string x phases x targets x causal (N<=4), gate supports and bitwise columns in causal "
+           "mode; signed pure states (all N=1, N=2 stride, random to N=6) forward to |0..0> and backward; SBRG on commuting (exactness, "
+           "spectrum) and arbitrary real Hamiltonians (diagonal form); both packages for diagonalize.",
+           "postcondition oracle on returned circuits (target string, support, dense spectrum)"),
+ "C19": _c("Samples checked for group membership with sign (oracle canonical group and library expect), chi-square uniformity on "
+           "groups <=64, density_matrix term by term and dense; classical-shadow snapshots with on-site / global / brick-wall / fixed "
+           "circuits: a hook on circuit.povm records the basis that produced each snapshot; validity, overlap with the base, basis "
+           "stabilisation, base untouched.",
+           "oracle membership/sign checks, statistical monitor, recording hook on the measurement-basis generator"),
+ "C20": _c("All strings x 4 phases (N<=3 quick, N<=5 thorough) through every accepted description (6 prefixes, code arrays with "
+           "phase code leading/trailing as list/tuple/ndarray/tensor, dict+N), repr and token round trips, attributes, negation and the "
+           "four unit scalars; random lists with integer / slice / mask / index-array selection against numpy semantics; both packages.",
+           "exhaustive format grid against the oracle's own string reading"),
 }
 NOT_APPLICABLE = {}
